@@ -949,9 +949,13 @@ func stableFieldObligations(w *World) []*workItem {
 			if !seen && w.SPkgs != nil {
 				// the struct's package may not be loaded for this property: nothing to check
 				found := false
+				pkgName := tn
+				if i := strings.Index(tn, "."); i >= 0 {
+					pkgName = tn[:i]
+				}
 				for key := range w.FnByKey {
-					if writers[key] {
-						found = true
+					if writers[key] || strings.HasPrefix(key, pkgName+".") || strings.HasPrefix(key, "(*"+pkgName+".") || strings.HasPrefix(key, "("+pkgName+".") {
+						found = true // the package that owns the struct is loaded: an absence of stores is a result
 					}
 				}
 				if !found {
